@@ -331,12 +331,19 @@ class World:
         for t in lg.subs:
             self.lsince[t] = len(self.sent.get(t, []))
             self.lrecv[t] = []
-        # the logger's per-topic lambdas call self.callback(topic, msg): wrap the instance attribute
-        inner = lg.callback
+        # observe the deliveries to the logger at its Subscriber objects (public attribute `callback`, looked up by the bus
+        # at every delivery): independent of how the logger binds its own method (lambda, functools.partial, ...)
+        subs = lg.subs
+        if isinstance(subs, dict) and subs and all(hasattr(s_, "callback") for s_ in subs.values()):
+            for t, s_ in subs.items():
+                s_.callback = self._wrap(0, t, s_.callback)
+        else:
+            # fall back: the logger's per-topic lambdas call self.callback(topic, msg): wrap the instance attribute
+            inner = lg.callback
 
-        def cb(topic, msg):
-            return self._wrap(0, topic, lambda m: inner(topic, m))(msg)
-        lg.callback = cb
+            def cb(topic, msg):
+                return self._wrap(0, topic, lambda m: inner(topic, m))(msg)
+            lg.callback = cb
 
     def init_params(self):
         self.emit(a="InitParams")
